@@ -267,6 +267,7 @@ func checkMain(args []string) int {
 		byName[r.Name] = r
 	}
 	violations := 0
+	renumbered := 0
 	var vlines []string
 	var undecided []string
 	discharged := 0
@@ -310,6 +311,12 @@ func checkMain(args []string) int {
 		total++
 		r := byName[name]
 		switch {
+		case r == nil && safetyNameRe.MatchString(name) && funcStillPresent(name, out):
+			// per-instruction safety obligations are numbered in instruction order; an edit
+			// that removes a dereference renumbers them. The function is still verified and
+			// every safety obligation it now generates is checked below.
+			total--
+			renumbered++
 		case r == nil:
 			report(name, "obligation is no longer generated (function or clause target missing)", nil)
 		case r.Result == "unsat":
@@ -344,6 +351,13 @@ func checkMain(args []string) int {
 		}
 		if kf := knownFor(r.Name); kf != nil {
 			fmt.Printf("KNOWN-FINDING: property=%s %s (%s)\n", id, kf.What, r.Name)
+			continue
+		}
+		if r.Safety && renumbered > 0 {
+			// the function's safety obligations were renumbered by an edit, so baseline names
+			// no longer identify them: in a function whose contract says `nopanic` every
+			// panic-freedom obligation it generates must discharge
+			report(r.Name, fmt.Sprintf("panic-freedom obligation of a nopanic function is %s (%s)", r.Result, r.Solver), r)
 			continue
 		}
 		if r.Result == "sat" {
